@@ -102,6 +102,11 @@ class Ctx:
                     problems.append("theorem %s missing from the axiom audit" % t)
                 elif not set(axioms[t]) <= leanio.ALLOWED_AXIOMS:
                     problems.append("theorem %s depends on %s" % (t, axioms[t]))
+        if ok and self.tier == "thorough":
+            lc_ok, lc_msg = leanio.leanchecker(leanio.modules_for(self.prop))
+            self.extra["leanchecker"] = dict(modules=leanio.modules_for(self.prop), ok=lc_ok, output=lc_msg)
+            if lc_ok is False:
+                problems.append("leanchecker rejected the compiled property modules: " + lc_msg)
         if problems:
             self.lean_problem = problems
         if ok and os.path.exists(leanio.DRIVER):
